@@ -121,7 +121,15 @@ func (d *cacheDriver) search(q string, o database.SearchOptions, mon bool) {
 
 func (d *cacheDriver) update(version int) {
 	cmds := append([]database.Command(nil), d.base...)
-	switch version % 3 {
+	switch version % 7 {
+	case 3: // replaced by nothing at all
+		cmds = nil
+	case 4: // ... by an empty list
+		cmds = []database.Command{}
+	case 5: // ... by a single command
+		cmds = cmds[:1]
+	case 6: // grown: every command twice
+		cmds = append(cmds, d.base...)
 	case 0: // drop every third command
 		var keep []database.Command
 		for i, c := range cmds {
@@ -277,7 +285,7 @@ func cacheRandom(args []string) int {
 				d.apply([]interface{}{"stats"})
 			default:
 				if corpus != "shipped" || r.Intn(4) == 0 {
-					d.update(1 + r.Intn(3))
+					d.update(1 + r.Intn(7))
 				}
 			}
 		}
